@@ -15,7 +15,7 @@ Proof. reflexivity. Qed.
 
 Lemma is_vt100_end_doc b : is_vt100_end b = is_alpha b.
 Proof.
-  unfold is_vt100_end, is_alpha, is_upper, is_lower, in_ranges. cbn [Consts.vt100_end_ranges existsb fst snd].
+  unfold is_vt100_end, is_alpha, is_upper, is_lower, in_ranges. cbn [Consts.noise_vt100_end_ranges existsb fst snd].
   destruct (97 <=? b), (b <=? 122), (65 <=? b), (b <=? 90); reflexivity.
 Qed.
 
